@@ -2,10 +2,10 @@ SPECIFICATION Spec
 CONSTANTS
   Members <- Members3
   Wallets = {"w1", "w2"}
-  MembersOf <- MembersOf3
-  Threshold <- Threshold3
+  MembersOf <- MembersOf3b
+  Threshold <- Threshold3b
   Windows = {1, 2}
-  LeaderCandidates <- Leader3
+  LeaderCandidates <- Leader3b
   HeartbeatCandidates <- HbFirst
   Proposable = {"Heartbeat", "Redemption"}
   SignableActions = {"Heartbeat"}
@@ -15,7 +15,7 @@ CONSTANTS
   Loss = {}
   Offline = FALSE
   SeedFailures = FALSE
-  Slow = {"w1"}
+  Slow = {}
   Lateness = FALSE
   AttemptsLimit = 2
   F <- C_F
